@@ -107,6 +107,25 @@ pub fn generate(s: &mut Session, tier: &str, rng: &mut Rng) {
                     s.oracle_fail(&format!("service-ended:{}:{}", cfg.label(), seq.join("+")), &format!("after [{}] a service task had ended: `{}`", seq.join(", "), r));
                 }
             }
+            // sessions whose clients and targets both send in bursts: they may lose datagrams, nobody else does
+            if cfg.udp && cfg.protocol == "shadowsocks" && !cfg.cipher.starts_with("2022") {
+                s.subcase("udp-flood");
+                s.run(&format!("e2e.udpflood {} ms={}", w, if thorough { 12000 } else { 5000 }));
+                s.count("fault:udp-flood");
+                let mut served = false;
+                let mut last = String::new();
+                // (what the flood left in the queues is worked off first: three tries, a second apart)
+                for _ in 0..3 {
+                    last = s.run(&format!("e2e.udp {} sizes={} seed={}", w, "1,700,1400", rng.below(1 << 40)));
+                    if last == "up=ok down=ok" {
+                        served = true;
+                        break;
+                    }
+                }
+                if !served {
+                    s.oracle_fail(&format!("udp-after-flood:{}", cfg.label()), &format!("after sessions that flooded in both directions no well-behaved udp flow was served any more: `{}`", last));
+                }
+            }
             // names behind a resolver that does not answer: more such flows than the runtime has workers, then a flow to
             // an address - it is served at once (a look-up waits by itself, not on a worker thread)
             if crate::e2e::resolver_available() {
